@@ -66,3 +66,18 @@ def op_audit(req):
 
 
 OPS['audit'] = op_audit
+
+
+def op_out(req):
+    """Plain minify: returns the output text or the exception class name."""
+    if PY2:
+        src = req['src'].encode('utf-8') if 'src' in req else req['src_hex'].decode('hex')
+    else:
+        src = req['src'] if 'src' in req else bytes.fromhex(req['src_hex'])
+    try:
+        return {'out': python_minifier.minify(src, **kwargs(req['opts']))}
+    except BaseException as e:
+        return {'exc': type(e).__name__}
+
+
+OPS['out'] = op_out
